@@ -312,4 +312,6 @@ def run(ctx) -> None:
     ctx.guard(r14_3)
     ctx.guard(r14_4_5)
     ctx.guard(r14_6_7)
-    ctx.assume("kid-before-header ordering on the produce side is decided by C03 R03.2")
+    # the recorded kid is part of what is signed: key selection precedes the header encoding and writes into the encoded dict
+    from .c03 import r03_2
+    ctx.guard(r03_2, "R14.8")
